@@ -26,7 +26,7 @@ type Proof struct {
 }
 
 func (p *Proof) IsValid(public Public) bool {
-	if p == nil {
+	if p == nil || public.Aux == nil {
 		return false
 	}
 
@@ -78,10 +78,14 @@ func NewProof(private Private, hash *hash.Hash, public Public, pl *pool.Pool) *P
 }
 
 func (p *Proof) Verify(public Public, hash *hash.Hash, pl *pool.Pool) bool {
-	if p == nil {
+	if p == nil || public.Aux == nil {
 		return false
 	}
 	if err := pedersen.ValidateParameters(public.Aux.N(), public.Aux.S(), public.Aux.T()); err != nil {
+		return false
+	}
+	// nil or out of range entries are refused here: a panic inside a pool worker cannot be recovered by the caller
+	if !p.IsValid(public) {
 		return false
 	}
 
